@@ -1,9 +1,9 @@
 import BppModel.Text.StrLite
 /-
 The wildcard matcher of the library.  The same code appears three times:
-  ParameterList::getMatchingParameterNames   src/Bpp/Numeric/ParameterList.cpp:219-250
-  ApplicationTools::matchingParameters (map)  src/Bpp/App/ApplicationTools.cpp:28-58
-  ApplicationTools::matchingParameters (vec)  src/Bpp/App/ApplicationTools.cpp:60-92
+  ParameterList::getMatchingParameterNames   src/Bpp/Numeric/ParameterList.cpp:220-252
+  ApplicationTools::matchingParameters (map)  src/Bpp/App/ApplicationTools.cpp:28-60
+  ApplicationTools::matchingParameters (vec)  src/Bpp/App/ApplicationTools.cpp:64-96
 `matcher` is the code after the repair "fix: wildcard-free pattern must equal the parameter
 name"; `matcherOld` is the code as found.  `globMatch` is the textbook recursive glob with `*`.
 -/
